@@ -139,7 +139,73 @@ func mustFunc(f *ast.File, file, recv, name string) *ast.FuncDecl {
 	if fd == nil {
 		fail("%s: function %s.%s not found", file, recv, name)
 	}
+	key := file + "::" + recv + "." + name
+	if dumpParams != nil {
+		dumpParams[key] = fnParamNames(fd)
+	} else {
+		canonicalParameters(fd, key)
+	}
 	return fd
+}
+
+// dumpParams (flag -dumpparams): collect the parameter names of every function looked up, to (re)write paramnames.go
+var dumpParams map[string][]string
+
+func fnParamNames(fd *ast.FuncDecl) []string {
+	var ns []string
+	for _, p := range fd.Type.Params.List {
+		if len(p.Names) == 0 {
+			ns = append(ns, "_")
+		}
+		for _, n := range p.Names {
+			ns = append(ns, n.Name)
+		}
+	}
+	return ns
+}
+
+// canonicalParameters renames the parameters of a looked-up function, by POSITION, to the names the fact
+// extractors and translator configurations were written with (paramnames.go), so that renaming a parameter
+// in the source - a harmless rewrite - changes no extracted text and no translated binder. Skipped when the
+// number of parameters differs (a real change, reported by whatever depends on it) or when the old name is
+// already used by another identifier of the function (the renaming could capture it).
+func canonicalParameters(fd *ast.FuncDecl, key string) {
+	want, ok := canonicalParams[key]
+	if !ok {
+		return
+	}
+	var ids []*ast.Ident
+	for _, p := range fd.Type.Params.List {
+		if len(p.Names) == 0 {
+			ids = append(ids, nil)
+		}
+		ids = append(ids, p.Names...)
+	}
+	if len(ids) != len(want) {
+		return
+	}
+	for i, id := range ids {
+		if id == nil || id.Name == want[i] || id.Name == "_" || want[i] == "_" || id.Obj == nil {
+			continue
+		}
+		clash := false
+		ast.Inspect(fd, func(n ast.Node) bool {
+			if x, ok := n.(*ast.Ident); ok && x.Name == want[i] && x.Obj != id.Obj {
+				clash = true
+			}
+			return true
+		})
+		if clash {
+			continue
+		}
+		obj := id.Obj
+		ast.Inspect(fd, func(n ast.Node) bool {
+			if x, ok := n.(*ast.Ident); ok && x.Obj == obj {
+				x.Name = want[i]
+			}
+			return true
+		})
+	}
 }
 
 func callName(c *ast.CallExpr) string {
